@@ -15,6 +15,15 @@ pub fn sym_scalar(name: &str, kind: &str) -> Scalar {
 pub fn seed_variant_topbyte(_s: &Scalar, idx: usize) -> Scalar {
     Scalar::sym(&format!("seed_topbyte_{}", idx), "seed")
 }
+pub fn noncanonical_encoding_of(_cur: &[u8; 32], _name: &str) -> [u8; 32] {
+    // in the model a second encoding of a scalar is an opaque element whose canonicity question is answered "no"
+    with(|c| {
+        let b = c.new_elem();
+        let id = c.dec32(&b).unwrap();
+        c.noncanonical.push(id);
+        b
+    })
+}
 pub fn free_point(_name: &str) -> RistrettoPoint {
     RistrettoPoint::free()
 }
